@@ -400,12 +400,25 @@ def execMem (key src : Val) : Res Val :=
     if keyModelled k && items.all isPairVal && typeOf key == k then
       .ok (.bool (_root_.Impl.Coll.Map.contains valEq (items.map toKV) key))
     else .stuck
+  -- `BigMapType.contains` is `MapType.contains`: `self.get(key, dup=False) is not None`; `BigMapType.get` searches `self` (the
+  -- items, then the removed keys with value `None`) and, for a key found in neither, asks the context — which holds nothing for
+  -- the temporary id of a map created in the run: `None`
+  | .bigMap k _ items =>
+    if keyModelled k && items.all isPairVal && typeOf key == k then
+      .ok (.bool (_root_.Impl.Coll.Map.contains valEq (items.map toKV) key))
+    else .stuck
   | _ => .stuck
 
 /-- GET after `pop2`: `MapType.get` then `OptionType.none(src.args[1])` / `from_some` -/
 def execGet (key src : Val) : Res Val :=
   match src with
   | .map k v items =>
+    if keyModelled k && items.all isPairVal && typeOf key == k then
+      match _root_.Impl.Coll.Map.get valEq (items.map toKV) key with
+      | some y => .ok (.some y)
+      | none => .ok (.none v)
+    else .stuck
+  | .bigMap k v items =>
     if keyModelled k && items.all isPairVal && typeOf key == k then
       match _root_.Impl.Coll.Map.get valEq (items.map toKV) key with
       | some y => .ok (.some y)
@@ -420,6 +433,15 @@ def mapUpdate (k v : Ty) (items : List Val) (key : Val) (val : Option Val) : Res
     .ok (r.1, .map k v (r.2.map ofKV))
   else .stuck
 
+/-- `BigMapType.update` on a map created in the run: `prev_val = self.get(key, dup=False)` is found among the items or is
+`None`, so the branches are those of `MapType.update` (replace / filter out / `sorted(items + [(key, val)])` / unchanged); the
+bookkeeping of `removed_keys` does not show in any later answer.  Result: `type(self)(items=…, ptr=self.ptr, …)` -/
+def bigMapUpdate (k v : Ty) (items : List Val) (key : Val) (val : Option Val) : Res (Option Val × Val) :=
+  if keyModelled k && items.all isPairVal && typeOf key == k then
+    let r := _root_.Impl.Coll.Map.update valEq valLt (items.map toKV) key val
+    .ok (r.1, .bigMap k v (r.2.map ofKV))
+  else .stuck
+
 /-- UPDATE after `pop3`: a `bool` selects `SetType.add` / `remove`, an `option` goes to `MapType.update` -/
 def execUpdate (key val src : Val) : Res Val :=
   match val, src with
@@ -429,6 +451,8 @@ def execUpdate (key val src : Val) : Res Val :=
     else .stuck
   | .none _, .map k v items => (mapUpdate k v items key none).bind fun r => .ok r.2
   | .some y, .map k v items => (mapUpdate k v items key (some y)).bind fun r => .ok r.2
+  | .none _, .bigMap k v items => (bigMapUpdate k v items key none).bind fun r => .ok r.2
+  | .some y, .bigMap k v items => (bigMapUpdate k v items key (some y)).bind fun r => .ok r.2
   | _, _ => .stuck
 
 /-- GET_AND_UPDATE after `pop3`: `(res, dst)`; `res` is pushed last -/
@@ -438,6 +462,10 @@ def execGetAndUpdate (key val src : Val) : Res (Val × Val) :=
     (mapUpdate k v items key none).bind fun r => .ok ((match r.1 with | some p => Val.some p | none => Val.none v), r.2)
   | .some y, .map k v items =>
     (mapUpdate k v items key (some y)).bind fun r => .ok ((match r.1 with | some p => Val.some p | none => Val.none v), r.2)
+  | .none _, .bigMap k v items =>
+    (bigMapUpdate k v items key none).bind fun r => .ok ((match r.1 with | some p => Val.some p | none => Val.none v), r.2)
+  | .some y, .bigMap k v items =>
+    (bigMapUpdate k v items key (some y)).bind fun r => .ok ((match r.1 with | some p => Val.some p | none => Val.none v), r.2)
   | _, _ => .stuck
 
 /-- `execute_hash` after `pop1`: `assert_type_equal(BytesType)`, `BytesType.from_value(hash_digest(bytes(a)))` -/
@@ -686,6 +714,174 @@ def execPack (a : Val) : Res Val :=
     | some bs => .ok (.bytes (5 :: bs))
     | none => .rtfail
 
+/-! Extension 3, phase 1: `UNPACK t` — `cls.args[0].unpack(bytes(a))` inside `try … except Exception` (EVERY exception gives
+`None`): `assert data.startswith(b'\x05')`, `unforge_micheline(data[1:])` (property C05's mirror `Impl.Forge.unforge` with the
+`prim_int` table and the strictness flag read from the source), then `cls.from_micheline_value(val_expr)` class by class.
+Expressions are `BMich` (primitives as tags, texts as their UTF-8 bytes): `expr['prim'] = prim_int[tag]` is
+`Impl.Lower.primOfTag`; `value.decode()` raises on invalid UTF-8. -/
+/-- `parse_micheline_value(val_expr, handlers)`: `assert isinstance(val_expr, dict)`; `prim, args = val_expr.get('prim'),
+val_expr.get('args', [])` (a literal is a dict without `prim`); `assert not val_expr.get('annots')` (the repair C01-5: an
+annotation list read from bytes is never empty); `assert (prim, len(args)) in handlers`.  Result: the position of the
+handler and `args` -/
+def parseValue (handlers : List (String × Nat)) (m : BMich) : Option (Nat × List BMich) :=
+  match m with
+  | .prim t args annot =>
+    if annot.isSome then none
+    else
+      match _root_.Impl.Lower.primOfTag t with
+      | none => none
+      | some name => (handlers.findIdx? fun h => h.1 == name && h.2 == args.length).map fun i => (i, args)
+  | _ => none
+
+/-- `parse_micheline_literal(val_expr, {core_type: handler})`: the literal of the wanted kind (`assert isinstance(val_expr,
+dict)`: not a sequence; a primitive application has the first key `prim`, which is no handler) -/
+def litInt : BMich → Option Int
+  | .int v => some v
+  | _ => none
+
+/-- `{'string': value.decode()}` followed by `StringType.from_value`: `assert len(value) == len(value.encode())` — the text
+decodes and is ASCII, i.e. every byte is below 128 — and (the repair C01-7) `assert all(c == '\n' or ' ' <= c <= '~' …)` -/
+def strFromValue (s : List Nat) : Option Val :=
+  if s.all (fun c => decide (c < 128)) && s.all (fun c => c == 10 || (decide (32 ≤ c) && decide (c ≤ 126))) then some (.str s) else none
+
+/-- `check_constraints(items)` of `SetType` / `MapType`: C14's mirror with the `__eq__` / `__lt__` of the key classes -/
+def constraintsOk (ks : List Val) : Bool :=
+  match _root_.Impl.Coll.checkConstraints valEq valLt ks with
+  | .ok _ => true
+  | .error _ => false
+
+def mapAll (f : BMich → Option Val) : List BMich → Option (List Val)
+  | [] => some []
+  | x :: xs =>
+    match f x, mapAll f xs with
+    | some v, some vs => some (v :: vs)
+    | _, _ => none
+
+def tuple2 : Option Val → Option Val → Option Val
+  | some a, some b => some (.pair a b)
+  | _, _ => none
+
+/-- `parse_elt` of `MapType.parse_micheline_value`: `parse_micheline_value(elt_expr, {('Elt', 2): …})` on every item -/
+def parseElts (fk fv : BMich → Option Val) : List BMich → Option (List Val)
+  | [] => some []
+  | e :: xs =>
+    match parseValue [("Elt", 2)] e with
+    | some (_, [a, b]) =>
+      match tuple2 (fk a) (fv b), parseElts fk fv xs with
+      | some p, some ps => some (p :: ps)
+      | _, _ => none
+    | _ => none
+
+/-- the head of `PairType.from_micheline_value`: a dict with `prim == 'Pair'` (and, repair C01-5, no annotations) gives its
+`args`, a list is `args` itself -/
+def pairArgs : BMich → Option (List BMich)
+  | .prim t args annot =>
+    if _root_.Impl.Lower.primOfTag t = some "Pair" ∧ annot.isSome = false then some args else none
+  | .seq xs => some xs
+  | _ => none
+
+def isPairClass : Ty → Bool
+  | .pair _ _ => true
+  | _ => false
+
+/-- `cls.from_micheline_value(val_expr)` for the classes of `Typing.unpackable` (`none`: an exception) -/
+def fromMich (rt : List Nat → Option Int) : Ty → BMich → Option Val
+  | .unit, m => (parseValue [("Unit", 0)] m).map fun _ => .unit
+  | .bool, m =>
+    match parseValue [("False", 0), ("True", 0)] m with
+    | some (0, _) => some (.bool false)
+    | some (1, _) => some (.bool true)
+    | _ => none
+  | .int, m => (litInt m).map fun v => .num .int v
+  -- `NatType.from_value` / `MutezType.from_value`: the guards read from the source (`numFromValue`)
+  | .nat, m =>
+    match litInt m with
+    | some v => (match numFromValue .nat v with | .ok r => some r | _ => none)
+    | none => none
+  | .mutez, m =>
+    match litInt m with
+    | some v => (match numFromValue .mutez v with | .ok r => some r | _ => none)
+    | none => none
+  -- `{'int': int, 'string': optimize_timestamp}`
+  | .timestamp, m =>
+    match m with
+    | .int v => some (.num .timestamp v)
+    | .str s => (rt s).map fun v => .num .timestamp v
+    | _ => none
+  | .string, m =>
+    match m with
+    | .str s => strFromValue s
+    | _ => none
+  | .bytes, m =>
+    match m with
+    | .bytes b => some (.bytes b)
+    | _ => none
+  | .option t, m =>
+    match parseValue [("Some", 1), ("None", 0)] m with
+    | some (0, [x]) => (fromMich rt t x).map .some
+    | some (1, _) => some (.none t)
+    | _ => none
+  | .or l r, m =>
+    match parseValue [("Left", 1), ("Right", 1)] m with
+    | some (0, [x]) => (fromMich rt l x).map fun v => .left v r
+    | some (1, [x]) => (fromMich rt r x).map fun v => .right l v
+    | _ => none
+  | .pair l r, m =>
+    match pairArgs m with
+    | none => none
+    | some args =>
+      if args.length = 2 then
+        match args with
+        | [x, y] => tuple2 (fromMich rt l x) (fromMich rt r y)
+        | _ => none
+      else if args.length > 2 then
+        -- repair C01-6: `assert issubclass(cls.args[1], PairType)`; then `cls.args[1].from_micheline_value(args[1:])`
+        if isPairClass r then
+          match args with
+          | x :: rest => tuple2 (fromMich rt l x) (fromMich rt r (.seq rest))
+          | [] => none
+        else none
+      else none
+  | .list t, m =>
+    match m with
+    | .seq xs => (mapAll (fromMich rt t) xs).map fun vs => .list t vs
+    | _ => none
+  | .set t, m =>
+    match m with
+    | .seq xs => (mapAll (fromMich rt t) xs).bind fun vs => if constraintsOk vs then some (.set t vs) else none
+    | _ => none
+  | .map k v, m =>
+    match m with
+    | .seq xs =>
+      (parseElts (fromMich rt k) (fromMich rt v) xs).bind fun items =>
+        if constraintsOk (items.map fun e => (toKV e).1) then some (.map k v items) else none
+    | _ => none
+  | _, _ => none
+
+/-- UNPACK after `pop1`: `a.assert_type_equal(BytesType)`; `try: some = cls.args[0].unpack(bytes(a)); res =
+OptionType.from_some(some)`; `except Exception: res = OptionType.none(cls.args[0])`.  `unpack`: `assert cls.is_packable()`
+(true for the classes of the model's `unpackable`), `assert data.startswith(b'\x05')`, `unforge_micheline(data[1:])`,
+`from_micheline_value` -/
+def execUnpack (env : Env) (t : Ty) (a : Val) : Res Val :=
+  match a with
+  | .bytes b =>
+    match b with
+    | 5 :: rest =>
+      match (_root_.Impl.Forge.unforge _root_.Impl.Lower.known _root_.Impl.Lower.strict rest).bind (fromMich env.readTimestamp t) with
+      | some v => .ok (.some v)
+      | none => .ok (.none t)
+    | _ => .ok (.none t)
+  | _ => .stuck
+
+/-- CHECK_SIGNATURE after `pop3`: `pk.assert_type_equal(KeyType)`, `sig.assert_type_equal(SignatureType)`,
+`msg.assert_type_equal(BytesType)`, `key = Key.from_encoded_key(str(pk))`, `try: key.verify(signature=str(sig),
+message=bytes(msg)) except ValueError: res = BoolType(False) else: res = BoolType(True)` — whether `verify` raises is the
+parameter `env.hashes.checkSig` -/
+def execCheckSignature (env : Env) (pk sig msg : Val) : Res Val :=
+  match pk, sig, msg with
+  | .atom .key k, .atom .signature s, .bytes m => .ok (.bool (env.hashes.checkSig k s m))
+  | _, _, _ => .stuck
+
 /-- the instructions of extension 2 of the shape `a = stack.pop1(); a.assert_type_…(…); res = …; stack.push(res)`:
 `res` for the popped `a` -/
 def execUn (env : Env) (i : Instr) (a : Val) : Res Val :=
@@ -700,6 +896,7 @@ def execUn (env : Env) (i : Instr) (a : Val) : Res Val :=
   | .SET_DELEGATE => execSetDelegate env a
   | .EMIT tag t => execEmit env tag t a
   | .PACK => execPack a
+  | .UNPACK t => execUnpack env t a
   | _ => .stuck
 
 /-- the instructions of extension 2 -/
@@ -712,6 +909,9 @@ def stepExt (env : Env) (i : Instr) (s : Stack) : Res Stack :=
   -- parameter section at the driver boundary)
   | .SELF ep t => pure (s.push (.contract t (addrFromValue (env.self ++ 37 :: ep))))
   | .TRANSFER_TOKENS => do let (a, b, c, s) ← s.pop3; let r ← execTransferTokens env a b c; pure (s.push r)
+  | .CHECK_SIGNATURE => do let (a, b, c, s) ← s.pop3; let r ← execCheckSignature env a b c; pure (s.push r)
+  -- `res = BigMapType.empty(key_type, val_type)`; `res.attach_context(context)` gives it a temporary id
+  | .EMPTY_BIG_MAP k v => pure (s.push (.bigMap k v []))
   | i => do let (a, s) ← s.pop1; let r ← execUn env i a; pure (s.push r)
 
 /-- further instructions without sub-programs (kept apart from `step` so that either pattern match stays small) -/
